@@ -229,8 +229,9 @@ func makeSubjectFieldBuilt(c opsCase) (subject, bool) {
 
 // makeSubjectPreAssigned: constructor, assignments, optionally a complete observation, then
 // the single Decode. v2: any field (a group the vector does not carry stays absent whatever
-// its fields hold). v3: base fields and the version only — a successful Decode writes all
-// of them, whereas optional fields the vector omits keep what the caller wrote.
+// its fields hold). v3: base fields, the version, and optional metrics the vector writes (explicit X
+// included) — a successful Decode stores all of those, whereas optional fields the vector
+// omits keep what the caller wrote.
 func makeSubjectPreAssigned(c opsCase) (subject, bool) {
 	lv := spec.Level(c.Level)
 	var s subject
@@ -261,9 +262,17 @@ func makeSubjectPreAssigned(c opsCase) (subject, bool) {
 		}
 		s = subject{ver: 3, o3: o}
 	}
+	written := map[string]bool{}
+	for _, seg := range strings.Split(c.Input, "/") {
+		if k, _, ok := strings.Cut(seg, ":"); ok {
+			written[k] = true
+		}
+	}
 	for _, as := range c.PreAssign {
 		m := metricOf(c.Ver, as.Field)
-		if c.Ver == 3 && !(as.Field == "Ver" || (m != nil && m.Level == spec.Base)) {
+		// v3 optional metrics only when the vector writes them (explicit X included): then the
+		// Decode must store what is written
+		if c.Ver == 3 && !(as.Field == "Ver" || (m != nil && (m.Level == spec.Base || written[as.Field]))) {
 			continue
 		}
 		if val, ok := fieldValue(c.Ver, as.Field, as.Index); ok {
@@ -975,7 +984,9 @@ func TestC15(t *testing.T) {
 					}
 					for _, m := range spec.UpTo(tab, lv) {
 						if ver == 3 && m.Level > spec.Base {
-							continue
+							if _, w := written[m.Name]; !w {
+								continue // v3: an optional metric the vector omits keeps what the caller wrote
+							}
 						}
 						if m.Level > spec.Base && !rapid.Bool().Draw(rt, "pre"+m.Name) {
 							continue
